@@ -18,8 +18,16 @@ import (
 // ---------------------------------------------------------------------------------------------
 // (b) ServeMux routing against a reference written from the property statement
 
+// regOp is one registration operation on the mux: Handle(Pattern, handler #k) or HandleRemove(Pattern),
+// k being the position of the operation in the combined sequence Patterns ++ Ops.
+type regOp struct {
+	Remove  bool
+	Pattern string
+}
+
 type muxCase struct {
-	Patterns []string // registered in this order; handler k belongs to Patterns[k]
+	Patterns []string // Handle operations executed first, in this order; handler k belongs to Patterns[k]
+	Ops      []regOp  // further Handle / HandleRemove operations, executed after Patterns
 	QName    string
 	QType    uint16
 	NQ       int // number of questions (0..2); the first is QName/QType
@@ -61,6 +69,23 @@ func lowerLabels(s string) ([]string, error) {
 	return out, nil
 }
 
+// ops is the whole registration history of the case.
+func (c muxCase) ops() []regOp {
+	out := make([]regOp, 0, len(c.Patterns)+len(c.Ops))
+	for _, p := range c.Patterns {
+		out = append(out, regOp{Pattern: p})
+	}
+	return append(out, c.Ops...)
+}
+
+func (c muxCase) opName(i int) string {
+	o := c.ops()
+	if i < 0 || i >= len(o) {
+		return "?"
+	}
+	return o[i].Pattern
+}
+
 func isSuffix(pat, q []string) bool {
 	if len(pat) > len(q) {
 		return false
@@ -91,22 +116,29 @@ func route(c muxCase) (want int, matches []int, err error) {
 	}
 	byName := map[string]*reg{}
 	var order []string
-	for i, p := range c.Patterns {
-		l, err := lowerLabels(p)
+	// the registered set is the result of the operation sequence: names are compared as label
+	// sequences ignoring case, whatever spelling (case, trailing dot) each operation used
+	for i, op := range c.ops() {
+		l, err := lowerLabels(op.Pattern)
 		if err != nil {
 			return 0, nil, err
 		}
 		k := strings.Join(l, "\x00") + fmt.Sprint("/", len(l))
-		if r, ok := byName[k]; ok {
+		switch r, ok := byName[k]; {
+		case op.Remove:
+			delete(byName, k)
+		case ok:
 			r.idx = i // a later Handle for the same name replaces the handler
-		} else {
+		default:
 			byName[k] = &reg{l, i}
 			order = append(order, k)
 		}
 	}
 	var ms []*reg
+	seen := map[string]bool{}
 	for _, k := range order {
-		if r := byName[k]; isSuffix(r.labels, q) {
+		if r := byName[k]; r != nil && !seen[k] && isSuffix(r.labels, q) {
+			seen[k] = true
 			ms = append(ms, r)
 		}
 	}
@@ -122,6 +154,50 @@ func route(c muxCase) (want int, matches []int, err error) {
 	default:
 		return ms[0].idx, matches, nil
 	}
+}
+
+// removalClasses describes the HandleRemove operations of the case: whether one removes a name that is
+// registered at that moment, and whether it spells the name differently from the registration.
+func removalClasses(c muxCase) []string {
+	live := map[string]string{} // canonical key -> spelling used by the last Handle
+	var out []string
+	add := func(s string) {
+		for _, x := range out {
+			if x == s {
+				return
+			}
+		}
+		out = append(out, s)
+	}
+	q, _ := lowerLabels(c.QName)
+	for _, op := range c.ops() {
+		l, err := lowerLabels(op.Pattern)
+		if err != nil {
+			continue
+		}
+		k := strings.Join(l, "\x00") + fmt.Sprint("/", len(l))
+		if !op.Remove {
+			live[k] = op.Pattern
+			continue
+		}
+		sp, ok := live[k]
+		switch {
+		case !ok:
+			add("remove=absent")
+		case sp == op.Pattern:
+			add("remove=same-spelling")
+		default:
+			add("remove=other-spelling")
+		}
+		if ok && isSuffix(l, q) {
+			add("remove-hits-matching-pattern")
+		}
+		delete(live, k)
+	}
+	if out == nil {
+		out = []string{"remove=none"}
+	}
+	return out
 }
 
 // knownClass: DS routing classes of finding #15 (DESIGN §4).
@@ -143,12 +219,13 @@ func knownClass(c muxCase, matches []int, rootRegistered bool) string {
 }
 
 func rootRegistered(c muxCase) bool {
-	for _, p := range c.Patterns {
-		if l, err := lowerLabels(p); err == nil && len(l) == 0 {
-			return true
+	root := false
+	for _, op := range c.ops() {
+		if l, err := lowerLabels(op.Pattern); err == nil && len(l) == 0 {
+			root = !op.Remove
 		}
 	}
-	return false
+	return root
 }
 
 func (c muxCase) request() *dns.Msg {
@@ -195,13 +272,25 @@ func checkRefused(c muxCase, req *dns.Msg, w *capture) error {
 	return nil
 }
 
+func (c muxCase) opsText() string {
+	var sb strings.Builder
+	for i, op := range c.ops() {
+		if op.Remove {
+			fmt.Fprintf(&sb, "[#%d HandleRemove(%q)]", i, op.Pattern)
+		} else {
+			fmt.Fprintf(&sb, "[#%d Handle(%q)]", i, op.Pattern)
+		}
+	}
+	return sb.String()
+}
+
 func checkMux(c muxCase) error {
-	if len(c.Patterns) > 8 || c.NQ < 0 || c.NQ > 2 || c.Opcode < 0 || c.Opcode > 15 {
+	if len(c.Patterns) > 8 || len(c.Ops) > 48 || c.NQ < 0 || c.NQ > 2 || c.Opcode < 0 || c.Opcode > 15 {
 		pbt.Note(nil, false, "invalid-case")
 		return nil
 	}
-	for _, p := range c.Patterns {
-		if p == "" {
+	for _, op := range c.ops() {
+		if op.Pattern == "" {
 			pbt.Note(nil, false, "invalid-case")
 			return nil
 		}
@@ -222,33 +311,45 @@ func checkMux(c muxCase) error {
 	if strings.Contains(c.QName, `\.`) {
 		cls = append(cls, "escaped-dot-in-qname")
 	}
+	rc := removalClasses(c)
+	cls = append(cls, rc...)
+	removalMatters := false
+	for _, x := range rc {
+		if x == "remove-hits-matching-pattern" {
+			removalMatters = true
+		}
+	}
 	if k := knownClass(c, matches, rootRegistered(c)); k != "" {
 		cls = append(cls, "known-class="+k)
 	}
-	pbt.Note(kb, len(matches) >= 2, cls...)
+	pbt.Note(kb, len(matches) >= 2 || removalMatters, cls...)
 
 	mux := dns.NewServeMux()
 	var called []int
-	for i, p := range c.Patterns {
+	for i, op := range c.ops() {
 		i := i
-		mux.HandleFunc(p, func(w dns.ResponseWriter, r *dns.Msg) { called = append(called, i) })
+		if op.Remove {
+			mux.HandleRemove(op.Pattern)
+		} else {
+			mux.HandleFunc(op.Pattern, func(w dns.ResponseWriter, r *dns.Msg) { called = append(called, i) })
+		}
 	}
 	req := c.request()
 	w := &capture{}
 	mux.ServeDNS(w, req)
 	if want < 0 {
 		if len(called) != 0 {
-			return pbt.Errf("patterns %q question %q type %d: handler of %q called, expected REFUSED", c.Patterns, c.QName, c.QType, c.Patterns[called[0]])
+			return pbt.Errf("operations %s question %q type %d: handler of %q (#%d) called, expected REFUSED", c.opsText(), c.QName, c.QType, c.opName(called[0]), called[0])
 		}
 		return checkRefused(c, req, w)
 	}
 	if len(called) != 1 || called[0] != want {
 		got := "REFUSED/none"
 		if len(called) > 0 {
-			got = fmt.Sprintf("%q (#%d)", c.Patterns[called[0]], called[0])
+			got = fmt.Sprintf("%q (#%d)", c.opName(called[0]), called[0])
 		}
-		return pbt.Errf("patterns %q question %q type %s: routed to %s, expected %q (#%d); matching patterns longest first: %v",
-			c.Patterns, c.QName, dns.Type(c.QType), got, c.Patterns[want], want, matches)
+		return pbt.Errf("operations %s question %q type %s: routed to %s, expected %q (#%d); matching registrations longest first: %v",
+			c.opsText(), c.QName, dns.Type(c.QType), got, c.opName(want), want, matches)
 	}
 	if len(w.msgs)+len(w.raw) != 0 {
 		return pbt.Errf("the mux wrote a reply although a handler was found")
@@ -319,6 +420,50 @@ func genMux(t *rapid.T) muxCase {
 			p = strings.TrimSuffix(p, ".")
 		}
 		c.Patterns = append(c.Patterns, p)
+	}
+	// turn the tail of the Handle list into a generated operation sequence: removals of names
+	// registered earlier (re-spelled: other letter case, with/without the trailing dot) or of
+	// unrelated names, and re-registrations after a removal
+	if len(c.Patterns) > 0 && rapid.IntRange(0, 9).Draw(t, "withops") < 6 {
+		keep := rapid.IntRange(0, len(c.Patterns)).Draw(t, "keep")
+		tail := c.Patterns[keep:]
+		c.Patterns = c.Patterns[:keep:keep]
+		var handled []string
+		handled = append(handled, c.Patterns...)
+		respell := func(p string) string {
+			p = flipCase(t, p)
+			if p != "." {
+				if rapid.Bool().Draw(t, "dot") {
+					p = strings.TrimSuffix(p, ".") + "."
+				} else {
+					p = strings.TrimSuffix(p, ".")
+				}
+			}
+			return p
+		}
+		for _, p := range tail {
+			c.Ops = append(c.Ops, regOp{Pattern: p})
+			handled = append(handled, p)
+			for rapid.IntRange(0, 9).Draw(t, "rm") < 4 && len(c.Ops) < 14 {
+				var victim string
+				switch k := rapid.IntRange(0, 9).Draw(t, "victim"); {
+				case k == 0:
+					victim = genMuxName(t, 3, "rp")
+				case k <= 3:
+					victim = handled[rapid.IntRange(0, len(handled)-1).Draw(t, "which")]
+				default:
+					victim = respell(handled[rapid.IntRange(0, len(handled)-1).Draw(t, "which")])
+				}
+				c.Ops = append(c.Ops, regOp{Remove: true, Pattern: victim})
+				if rapid.IntRange(0, 4).Draw(t, "again") == 0 {
+					c.Ops = append(c.Ops, regOp{Pattern: respell(victim)})
+					handled = append(handled, victim)
+				}
+			}
+		}
+		if len(c.Ops) == 0 && len(handled) > 0 {
+			c.Ops = append(c.Ops, regOp{Remove: true, Pattern: respell(handled[rapid.IntRange(0, len(handled)-1).Draw(t, "which")])})
+		}
 	}
 	c.QName = flipCase(t, c.QName)
 	c.QType = rapid.SampledFrom(muxTypes).Draw(t, "qtype")
